@@ -231,6 +231,32 @@ pub fn run(e: &'static Engine) {
         }));
     }
     e.par(jobs);
+    // option combinations around the edge of the domain: level left to its default with a pinned version and a length
+    // anywhere from empty to beyond what the version holds at the default level (those builds are refused - then there
+    // is nothing to compare - but IF symbols come back they differ by their masks like any others)
+    let total: u32 = e.tier.pick(1600, 24000);
+    let mut jobs: Vec<Job> = Vec::new();
+    for _ in 0..shards {
+        jobs.push(Box::new(move |jc: &mut JobCtx| {
+            let strat = (prop_oneof![3 => 1usize..=8, 1 => 1usize..=40], 0usize..3, any::<u16>(), any::<bool>()).prop_flat_map(|(v, mi, lsel, pin)| {
+                let mode = Mode::from_index(mi);
+                let cap_q = capacity(v, Level::Q, mode);
+                let cap_l = capacity(v, Level::L, mode);
+                let len = match lsel % 4 {
+                    0 => crate::gens::pick(lsel >> 2, cap_q + 1),
+                    1 => cap_q + 1 + crate::gens::pick(lsel >> 2, cap_l - cap_q),
+                    2 => cap_q + 1,
+                    _ => cap_l,
+                };
+                crate::gens::payload(mode, len, false).prop_map(move |(input, _)| BuildCase::new(input, crate::fq::Opts { mode: Some(mode), level: None, version: if pin { Some(v) } else { None }, mask: None }))
+            });
+            jc.run_prop(6 << 20, &strat, total / shards, |c| c.to_json(), |c, o| {
+                o.label("part:default_level_edge");
+                check(c, "default_level_edge", o)
+            });
+        }));
+    }
+    e.par(jobs);
     super::common::extreme_parts(e, check);
     e.put("cells_total", json!(160));
     e.set_exhaustive(true, "40 versions x 4 levels x all 28 mask pairs x every coordinate of each symbol; payloads are sampled");
